@@ -173,3 +173,27 @@ Definition bad_idiag (cs : list idiag_case) : list nat := bad idiag_ok cs 0.
 Record kdiag_case := KD { kd_diags : list (list Z); kd_obs : list Z }.
 Definition kdiag_ok (c : kdiag_case) : bool := lz_eqb (kron_diag (kd_diags c)) (kd_obs c).
 Definition bad_kdiag (cs : list kdiag_case) : list nat := bad kdiag_ok cs 0.
+
+(* ---- Diag / Root / Matmul / SumBatch _get_indices over dense data *)
+Record diagop_case := DG { dg_d : list Z; dg_rc : list (Z * Z); dg_obs : list Z }.
+Definition diagop_ok (c : diagop_case) : bool :=
+  lz_eqb (map (fun '(r, k) => diag_get_indices (fun i => nth (Z.to_nat i) (dg_d c) 0) r k) (dg_rc c)) (dg_obs c).
+Definition bad_diagop (cs : list diagop_case) : list nat := bad diagop_ok cs 0.
+
+Record root_case := RT0 { rt_rk : Z; rt_d : list Z; rt_rc : list (Z * Z); rt_obs : list Z }.
+Definition root_ok (c : root_case) : bool :=
+  lz_eqb (map (fun '(r, k) => root_get_indices (mat_at (rt_rk c) (rt_d c)) (Z.to_nat (rt_rk c)) r k) (rt_rc c)) (rt_obs c).
+Definition bad_root (cs : list root_case) : list nat := bad root_ok cs 0.
+
+(* left: m x k (row-major, k columns), right: k x n *)
+Record mm_case := MM { mm_k : Z; mm_n : Z; mm_l : list Z; mm_r : list Z; mm_rc : list (Z * Z); mm_obs : list Z }.
+Definition mm_ok (c : mm_case) : bool :=
+  lz_eqb (map (fun '(r, k) => matmul_get_indices (mat_at (mm_k c) (mm_l c)) (mat_at (mm_n c) (mm_r c)) (Z.to_nat (mm_k c)) r k) (mm_rc c))
+         (mm_obs c).
+Definition bad_mm (cs : list mm_case) : list nat := bad mm_ok cs 0.
+
+(* base: nb blocks of m x n *)
+Record sb_case := SB { sb_nb : Z; sb_m : Z; sb_n : Z; sb_d : list Z; sb_rc : list (Z * Z); sb_obs : list Z }.
+Definition sb_ok (c : sb_case) : bool :=
+  lz_eqb (map (fun '(r, k) => sumbatch_get_indices (stack_at (sb_m c) (sb_n c) (sb_d c)) (Z.to_nat (sb_nb c)) r k) (sb_rc c)) (sb_obs c).
+Definition bad_sb (cs : list sb_case) : list nat := bad sb_ok cs 0.
